@@ -4,7 +4,7 @@
 From Coq Require Import ZArith QArith List Bool.
 Import ListNotations.
 Require Import V.Lib.C43_PyPrelude V.gen.Vectoring V.C44.Model V.C44.Proofs V.C44.ProofsQ V.C44.Bounded.
-Require Import V.C44.Invariance V.C44.EdgeList V.C44.Triangle.
+Require Import V.C44.Invariance V.C44.EdgeList V.C44.Triangle V.C44.Triangle2.
 
 (* ---------- unbounded: every point, every vertex list (simple or not) ---------- *)
 
@@ -99,24 +99,22 @@ Theorem reversal_negates_wind : forall (p : pt) (vs : list pt) (s : bool),
 Proof. exact reversal. Qed.
 Print Assumptions reversal_negates_wind.
 
-(* triangles.  FULL statement (DESIGN: triangle_exact), NOT proved in general:
-     orient a b c <> 0 ->
-     (insideOnly p [a;b;c] = true <->
-        (0 < orient a b p /\ 0 < orient b c p /\ 0 < orient c a p) \/
-        (orient a b p < 0 /\ orient b c p < 0 /\ orient c a p < 0))
-   Proved part: the "if" direction for ALL integer triangles and points, with the value of the winding
-   number (+1 counter-clockwise, -1 clockwise).  The "only if" direction is covered only by the bounded
-   theorem below (all triangles of the 4x4 and 5x5 grids). *)
-Theorem triangle_exact_partial : forall a b c p : pt,
-  ((0 < orient a b p /\ 0 < orient b c p /\ 0 < orient c a p)%Z ->
-     insideOnly p [a; b; c] = true /\ wind p [a; b; c] = 1%Z) /\
-  ((orient a b p < 0 /\ orient b c p < 0 /\ orient c a p < 0)%Z ->
-     insideOnly p [a; b; c] = true /\ wind p [a; b; c] = (-1)%Z).
+(* triangles, exact and unbounded: for ALL integer triangles (degenerate ones included: then neither
+   side holds) and ALL integer points, p is strictly inside iff the three orientation signs of p
+   with respect to the directed edges agree and are non-zero; and then wind = +1 (counter-clockwise)
+   or -1 (clockwise). *)
+Theorem triangle_exact : forall a b c p : pt,
+  (insideOnly p [a; b; c] = true <->
+     (0 < orient a b p /\ 0 < orient b c p /\ 0 < orient c a p)%Z \/
+     (orient a b p < 0 /\ orient b c p < 0 /\ orient c a p < 0)%Z) /\
+  ((0 < orient a b p /\ 0 < orient b c p /\ 0 < orient c a p)%Z -> wind p [a; b; c] = 1%Z) /\
+  ((orient a b p < 0 /\ orient b c p < 0 /\ orient c a p < 0)%Z -> wind p [a; b; c] = (-1)%Z).
 Proof.
-  exact (fun a b c p => conj (fun H => tri_inside_ccw a b c p (proj1 H) (proj1 (proj2 H)) (proj2 (proj2 H)))
-                             (fun H => tri_inside_cw a b c p (proj1 H) (proj1 (proj2 H)) (proj2 (proj2 H)))).
+  exact (fun a b c p => conj (triangle_iff a b c p)
+    (conj (fun H => proj2 (tri_inside_ccw a b c p (proj1 H) (proj1 (proj2 H)) (proj2 (proj2 H))))
+          (fun H => proj2 (tri_inside_cw a b c p (proj1 H) (proj1 (proj2 H)) (proj2 (proj2 H)))))).
 Qed.
-Print Assumptions triangle_exact_partial.
+Print Assumptions triangle_exact.
 
 (* ---------- bounded, exhaustive (the bound is part of the statement) ---------- *)
 (* For EVERY simple polygon with at most 5 vertices on the 4x4 integer grid (resp. at most 4
